@@ -26,15 +26,18 @@ def harness(tier, seed):
     evals, distinct = 0, set()
     slow = []
 
-    def short(sys_, steps, time_):
-        s = System(sys_.name, sys_.state_dims, sys_.control_dims, sys_.state_dim_mod, sys_.state_dims_in_j, sys_.gamma,
+    def short(sys_, steps, time_, sdj=None, gamma=None):
+        # (the bundled Stuart-Landau and Lorenz systems both have gamma = 0.1, which is also the default of j_from_ode, and
+        # all state dimensions in J: the Lorenz variant below deviates in both, so that a dropped argument shows)
+        s = System(sys_.name, sys_.state_dims, sys_.control_dims, sys_.state_dim_mod,
+                   sys_.state_dims_in_j if sdj is None else sdj, sys_.gamma if gamma is None else gamma,
                    sys_.test_starting_states, sys_.training_starting_states[:3], 50, time_, steps, time_)
         s.equations = sys_.equations
         return s
 
     pairs = []
     for base in (STUART_LANDAU_4, LORENZ_4):
-        s = short(base, 120, 5.0)
+        s = short(base, 120, 5.0) if base is STUART_LANDAU_4 else short(base, 120, 5.0, 2, 0.7)
         pairs.append((s, linear(s)))
         pairs.append((s, list(anns(s))[0]))
 
